@@ -36,6 +36,12 @@ struct Remote : Scenario {
   int nrcpt = 1; std::vector<int> script; /* per phase: 2,4,5 or 0 = close */ size_t phase = 0;
   std::shared_ptr<Pipe> to_client, from_client; std::string inbuf, wire_data; bool in_data = false, srv_closed = false, data_done = false; int phase_reached = -1;
   std::string msg; std::string casename; int ticks = 0; int tcpto_case = -1;
+  // family=pair: the real qmail-rspawn starts two real qmail-remote processes for two recipients of ONE message; both connections are served
+  // in lock step, so the two deliveries overlap in time.  Each connection has its own server state, swapped in and out of the members above.
+  struct Conn { std::shared_ptr<Pipe> to_client, from_client; std::string inbuf, wire_data; bool in_data = false, srv_closed = false, data_done = false; size_t phase = 0; std::vector<int> script; int phase_reached = -1; };
+  std::vector<Conn> conns; int curconn = -1;
+  void store() { if (curconn < 0) return; Conn &c = conns[curconn]; c.to_client = to_client; c.from_client = from_client; c.inbuf = inbuf; c.wire_data = wire_data; c.in_data = in_data; c.srv_closed = srv_closed; c.data_done = data_done; c.phase = phase; c.script = script; c.phase_reached = phase_reached; }
+  void load(int i) { store(); curconn = i; Conn &c = conns[i]; to_client = c.to_client; from_client = c.from_client; inbuf = c.inbuf; wire_data = c.wire_data; in_data = c.in_data; srv_closed = c.srv_closed; data_done = c.data_done; phase = c.phase; script = c.script; phase_reached = c.phase_reached; }
   Remote(const Config &c) : cfg(c) { fam = c.get("family", "dns"); build_dns(); }
 
   void build_dns() {
@@ -80,8 +86,18 @@ struct Remote : Scenario {
       for (int last : {1, 2, 3}) { std::string r = ip4(10, 0, 0, last); r.push_back((char) (tcpto_case == 2 ? 1 : 2)); r += std::string(3, '\0'); for (int b = 0; b < 8; b++) r.push_back((char) ((when >> (8 * b)) & 255)); t += r; }
       t.resize(1024, '\0'); k.file("/var/qmail/queue/lock/tcpto")->data = t; }
     else if (fam == "msg") { auto ms = messages(); size_t i = choose_big(w, ms.size()); msg = ms[i]; casename = "msg: [" + esc(msg, 60) + "]"; }
+    else if (fam == "pair") {
+      static const char *nm[] = {"three blocks of text", "short message", "dot lines across a block boundary"}; int mi = w.ex->choose_n(3, BK_FREE);
+      msg = mi == 1 ? "Subject: t\n\nhello\n" : ""; if (mi != 1) for (int i = 0; i < 60; i++) msg += (mi == 2 && i % 7 == 0 ? ".line " : "line ") + std::to_string(i) + " " + std::string(40, 'a' + i % 26) + "\n";
+      casename = std::string("pair: two recipients of one message delivered at the same time, ") + nm[mi]; connplan = {1, 1, 1, 1}; }
     else throw HarnessError{"unknown family " + fam};
     script.assign(5 + nrcpt, 2); if (greet4) script[0] = 4;
+    if (fam == "pair") {
+      k.put_file(QmailEnv::messpath(123), msg, 0644, UID_QMAILQ, GID_QMAIL);
+      std::string stream; for (int i = 0; i < 2; i++) { stream.push_back((char) i); stream += "8/123"; stream.push_back('\0'); stream += "s@src.example"; stream.push_back('\0'); stream += "r" + std::to_string(i + 1) + "@remote.example"; stream.push_back('\0'); }
+      std::map<int, int> fds; fds[0] = QmailEnv::preloaded_pipe(w, stream); fds[1] = QmailEnv::sink(w, &out); fds[2] = QmailEnv::nullfd(w);
+      qpid = w.spawn("/var/qmail/bin/qmail-rspawn", {"qmail-rspawn"}, fds, UID_QMAILR, GID_QMAIL, "/");
+      return; }
     int ino = k.put_file(QmailEnv::messpath(123), msg, 0644, UID_QMAILQ, GID_QMAIL);
     int o = k.new_ofd(); k.ofds[o]->kind = K_FILE; k.ofds[o]->ino = ino; k.ofds[o]->flags = O_RDONLY; k.I(ino)->openrefs++;
     std::map<int, int> fds; fds[0] = o; fds[1] = QmailEnv::sink(w, &out); fds[2] = QmailEnv::nullfd(w);
@@ -104,6 +120,7 @@ struct Remote : Scenario {
     if (plan == 2) return -ETIMEDOUT;
     if (plan == 4) return -EINPROGRESS;   // becomes "writable" at once, getpeername() then fails: the asynchronous refusal
     Ofd *o = w.O(p, fd); if (!o) return -EBADF;
+    if (fam == "pair") { store(); conns.push_back(Conn()); curconn = (int) conns.size() - 1; script.assign(6, 2); wire_data.clear(); data_done = false; phase_reached = -1; to_client.reset(); from_client.reset(); }
     w.k.connect_sock(o, &to_client, &from_client); connected_to.push_back(ip);
     inbuf.clear(); phase = 0; in_data = false; srv_closed = false;
     answer(w);   // the greeting
@@ -152,6 +169,8 @@ struct Remote : Scenario {
   }
   void after_step(World &w, Proc &, const Step &st) override { if (st.injected && !st.err) w.counters["short_reads_of_the_message"]++; }
   bool on_quiescent(World &w) override {
+    if (fam == "pair") { bool any = false; for (int i = 0; i < (int) conns.size(); i++) { load(i); if (from_client && !srv_closed && !from_client->buf.empty()) { server(w); any = true; } } store(); if (any) return true; }
+    else
     if (from_client && !srv_closed && !from_client->buf.empty()) { server(w); return true; }
     { long dl = w.next_deadline(); if (dl >= 0 && ++ticks < 20) { w.advance_clock(dl); return true; } }   // nobody can act: time passes until the client's timeout
     return false;
@@ -163,6 +182,15 @@ struct Remote : Scenario {
   }
   static std::string canon(const std::string &m) { std::string o; for (size_t i = 0; i < m.size(); i++) { if (m[i] == '\r') { o += '\n'; if (i + 1 < m.size() && m[i + 1] == '\n') i++; } else o += m[i]; } return o; }
   void at_end(World &w) override {
+    if (fam == "pair") {
+      store(); w.counters["runs"]++; std::string key = "C06:" + casename;
+      if (conns.size() != 2) throw HarnessError{"family pair: " + std::to_string(conns.size()) + " connections were made, the scenario expects one per recipient"};
+      std::string cm = canon(msg); int acked = 0;
+      for (size_t i = 0; i < conns.size(); i++) { Conn &c = conns[i]; if (!c.data_done) continue; acked++; std::string m;
+        if (!decode(c.wire_data, &m) || m != cm) { w.soft_violation(key + ":wire", casename + ": connection " + std::to_string(i + 1) + " of 2: the server accepted a DATA payload that does not decode to the queued message (" + std::to_string(m.size()) + " bytes [" + esc(m, 80) + "] instead of " + std::to_string(cm.size()) + ")"); return; } }
+      if (acked != 2) { w.soft_violation(key + ":incomplete", casename + ": only " + std::to_string(acked) + " of 2 deliveries transferred the message although the server accepted everything"); return; }
+      int nk = 0; for (size_t i = 0; i + 1 < out->data.size(); i++) if (out->data[i] == 'K' && (i == 0 || (unsigned char) out->data[i - 1] <= 1)) nk++;
+      w.counters["pairs_both_delivered"]++; w.counters["messages_decoded_from_wire"] += 2; w.outcome_hash = fnvs(23, casename); w.description = casename + " -> both connections carried the message"; (void) nk; return; }
     Proc *p = nullptr; for (auto &pp : w.procs) if (pp && pp->vpid == qpid) p = pp.get();
     std::string key = "C09:" + casename; w.counters["runs"]++;
     if (fam == "smtp") { casename += " ["; for (int i = 0; i <= phase_reached && i < (int) script.size(); i++) casename += script[i] == 0 ? "close " : script[i] == 9 ? "stall " : std::to_string(script[i]) + "xx "; casename += "]"; key = "C09:" + casename; }
